@@ -211,7 +211,7 @@ def role_of_m(f):
 def run(tier, seed):
     ev = C.Evidence(PID, tier, seed, "model_checking")
     harnesses = K_QUICK if tier == "quick" else K_THOROUGH
-    out = kspec.run_kani_part(PID, harnesses, 600 if tier == "quick" else 3000, jobs=4, seed=seed)
+    out = kspec.run_kani_part(PID, harnesses, 900 if tier == "quick" else 9000, jobs=4, seed=seed)
     res = out["results"]
     violations, known_lines, undecided = [], [], list(out["undecided"]) if tier == "quick" else [u for u in out["undecided"]]
     for role, path, text in out["violations"]:
